@@ -186,5 +186,19 @@ Definition pair_ok (src : srcp) (k : paircase) : bool :=
                     end) al.
 Definition pair_mismatches (src : srcp) (l : list paircase) : list nat := mismatches_from (pair_ok src) 0 l.
 
+(* C02: two requests back to back; when the second was observed to run on the first's recycled objects, the model's giveStream
+   must have given them back in a final state of the first that matches its observation *)
+Record c02case := { c2_first : pcase; c2_recycled : bool; c2_second : pcase }.
+Definition c02_ok (src : srcp) (k : c02case) : bool :=
+  let a := c2_first k in
+  let al := allowed_from src (pc_cfg a) (init_st 0) (pc_rounds a) in
+  forallb (fun x => match x with Some _ => true | None => false end) al &&
+  existsb (fun x => match x with
+                    | Some (sa, oa) => obs_eqb oa (pc_obs a) && (negb (c2_recycled k) || gave sa)
+                    | None => false
+                    end) al &&
+  case_ok src (c2_second k).
+Definition c02_mismatches (src : srcp) (l : list c02case) : list nat := mismatches_from (c02_ok src) 0 l.
+
 (* for debugging a mismatch: what the model allows *)
 Definition show_allowed (src : srcp) (k : pcase) := allowed src (pc_cfg k) (pc_rounds k).
